@@ -10,20 +10,63 @@
    and of the hand model for strconv.Atoi (atoi), parseTagTo (parse_tag_to) and GetJoinFieldErr (its text left
    abstract: field_err).  What is given a meaning (anything else is RBad and the run is stuck):
      identifiers, true false nil ExplainEn, string literals, != on strings and on an error against nil, !e
-     a, b, c := f(args) with _ ignored     if / else     errBuf.WriteString(e)     return     tv.Interface() *)
+     a, b, c := f(args) with _ ignored     if / else     errBuf.WriteString(e)     return     tv.Interface()
+   and, for the string rules Phone, Email, IDCard, Ip, Ipv4, Ipv6, Year, Year2Month, Date, Prefix, Suffix and for
+   CheckFieldIsStr itself:
+     x := e   x = e   if init; cond   == nil   && || (right operand only when needed)   + on strings   | on integers
+     tv.String()  tv.Kind()  reflect.String  switch on a kind   err.Error()   fmt.Errorf(text) (a text without verbs)
+     PhoneRe / EmailRe / IdCardRe .MatchString (the translated patterns, Brzozowski matcher)
+     net.ParseIP, ip.To4(), time.Parse (oracle tables)   GetTimeFmt (get_time_fmt)   strings.Trim / HasPrefix / HasSuffix
+   and, for Int, Float, Json, File, Dir:
+     switch init; tag   len(s)  >  <<   IntRe / FloatRe   ReflectKindIsNum (on the kind's name)   json.Valid (oracle)
+     internal.UnsafeStr2Bytes (the same bytes)   StrEscape (str_escape)   dir(path) (os.Stat oracle; error text abstract) *)
 From Coq Require Import String.
-From PGV Require Import Base.Bytes Base.GoStr Base.GoNum Base.Utf8 Base.MiniGo.
+From PGV Require Import Base.Bytes Base.GoStr Base.GoNum Base.Utf8 Base.MiniGo Regex.Re Regex.Rx Extracted.SourceRegex.
 From PGV Require Import Extracted.SourceConst Model.RuleText Model.Value Model.Clause Model.Rules.
 Open Scope Z_scope.
 
-Inductive rv := RS (s : str) | RZ (z : Z) | RB (b : bool) | RErr (e : option ftext) | RVal (v : val) | RBad.
+Inductive rv :=
+| RS (s : str) | RZ (z : Z) | RB (b : bool) | RVal (v : val)
+| RErr (e : option ftext)        (* nil, or one of parseTagTo's errors *)
+| RErrS (text : str)             (* an error made by fmt.Errorf: its text *)
+| RErrO                          (* some other non-nil error (time.Parse) *)
+| RIp (ok is4 : bool)            (* net.ParseIP's result: nil or not, with a 4-byte form or not *)
+| RKind (k : string)             (* a reflect.Kind, by name *)
+| RBad.
 Definition renv := string -> rv.
 Definition rset (x : string) (v : rv) (e : renv) : renv := fun y => if String.eqb y x then v else e y.
-Definition rempty : renv := fun y => if String.eqb y "ExplainEn" then RS ExplainEn else RBad.
+Definition rempty : renv :=
+  fun y => if String.eqb y "ExplainEn" then RS ExplainEn
+           else if String.eqb y "YearFmt" then RZ YearFmt else if String.eqb y "MonthFmt" then RZ MonthFmt
+           else if String.eqb y "DateFmt" then RZ DateFmt else if String.eqb y "DateTimeFmt" then RZ DateTimeFmt
+           else RBad.
+
+(* tv.String(): the text of a string, "<T Value>" otherwise;  tv.Kind(): only String is told apart *)
+Definition width_name (w : width) : string :=
+  match w with W8 => "8" | W16 => "16" | W32 => "32" | W64 => "64" | WInt => "" end%string.
+Definition rkind (v : val) : string :=
+  match v with
+  | VInvalid => "Invalid" | VBool _ => "Bool" | VInt w _ => "Int" ++ width_name w | VUint w _ => "Uint" ++ width_name w
+  | VFloat is32 _ _ _ => if is32 then "Float32" else "Float64" | VStr _ => "String"
+  | VNilPtr _ | VPtr _ => "Ptr" | VSlice _ _ _ _ => "Slice" | VArray _ _ _ => "Array" | VMap _ _ _ _ => "Map"
+  | VStruct _ _ | VTime _ => "Struct" | VIface _ => "Interface" | VOther _ => "Func"
+  end%string.
+(* ReflectKindIsNum(kind) (valid/common.go), on the name of the kind, floats not allowed *)
+Definition kind_name_is_int (k : string) : bool :=
+  existsb (String.eqb k) ["Int"; "Int8"; "Int16"; "Int32"; "Int64"; "Uint"; "Uint8"; "Uint16"; "Uint32"; "Uint64"]%string.
+Definition MUST_STR : str := s2b "it must is string".
+(* CheckFieldIsStr(obj, field, tv) (valid/common.go); fmt.Errorf is given a text without verbs *)
+Definition check_str_err (obj field : str) (v : val) : rv :=
+  match v with
+  | VStr _ => RErr None
+  | _ => RErrS (join_valid_err obj field (value_string v) [ExplainEn; MUST_STR])
+  end.
 
 Section Sem.
+  Variable orc : oracles.                  (* net.ParseIP and time.Parse, as tables the harness fills *)
   Variable unit_of : val -> str.           (* the unit text validInputSize / eq hand back ("length", "size", ...) *)
   Variable field_err : str -> str -> ftext -> str.     (* GetJoinFieldErr(obj, field, err) *)
+  Variable stat_text : str -> str.         (* the text of os.Stat's error for a path *)
 
   Fixpoint strs (l : list rv) : option (list str) :=
     match l with
@@ -40,15 +83,68 @@ Section Sem.
     | ELit z => RZ z
     | EUn op a => if String.eqb op "!" then match reval e a with RB b => RB (negb b) | _ => RBad end else RBad
     | EBin op a b =>
-      if String.eqb op "!=" then
+      let ne := fun x y =>
+        match x, y with
+        | RS x, RS y => Some (negb (str_eqb x y))
+        | RErr x, RErr None => Some (match x with Some _ => true | None => false end)
+        | RErrS _, RErr None | RErrO, RErr None => Some true
+        | RIp ok _, RErr None => Some ok
+        | _, _ => None
+        end in
+      if String.eqb op "!=" then match ne (reval e a) (reval e b) with Some r => RB r | None => RBad end
+      else if String.eqb op "==" then match ne (reval e a) (reval e b) with Some r => RB (negb r) | None => RBad end
+      else if String.eqb op "&&" then
+        match reval e a with RB false => RB false | RB true => match reval e b with RB y => RB y | _ => RBad end | _ => RBad end
+      else if String.eqb op "||" then
+        match reval e a with RB true => RB true | RB false => match reval e b with RB y => RB y | _ => RBad end | _ => RBad end
+      else if String.eqb op "+" then match reval e a, reval e b with RS x, RS y => RS (x ++ y) | _, _ => RBad end
+      else if String.eqb op "|" then match reval e a, reval e b with RZ x, RZ y => RZ (Z.lor x y) | _, _ => RBad end
+      else if String.eqb op "<<" then match reval e a, reval e b with RZ x, RZ y => RZ (Z.shiftl x y) | _, _ => RBad end
+      else if String.eqb op ">" then match reval e a, reval e b with RZ x, RZ y => RB (y <? x) | _, _ => RBad end
+      else RBad
+    | ESel (EId pkg) k => if String.eqb pkg "reflect" then RKind k else RBad
+    | ECall (ESel (EId t) m) [] =>
+      match e t with
+      | RVal v =>
+        if String.eqb m "Interface" then RVal v
+        else if String.eqb m "String" then RS (value_string v)
+        else if String.eqb m "Kind" then RKind (rkind v)
+        else RBad
+      | RErrS text => if String.eqb m "Error" then RS text else RBad
+      | RIp ok is4 => if String.eqb m "To4" then RIp (ok && is4) is4 else RBad      (* To4 of a nil IP is nil *)
+      | _ => RBad
+      end
+    | ECall (ESel (EId t) m) [a] =>
+      if String.eqb m "MatchString" then
+        match reval e a with
+        | RS x => if String.eqb t "PhoneRe" then RB (match_string (pats PhoneRe) x)
+                  else if String.eqb t "EmailRe" then RB (match_string (pats EmailRe) x)
+                  else if String.eqb t "IdCardRe" then RB (match_string (pats IdCardRe) x)
+                  else if String.eqb t "IntRe" then RB (match_string (pats IntRe) x)
+                  else if String.eqb t "FloatRe" then RB (match_string (pats FloatRe) x)
+                  else RBad
+        | _ => RBad
+        end
+      else if String.eqb t "net" && String.eqb m "ParseIP" then
+        match reval e a with RS x => RIp (fst (ip_lookup orc x)) (snd (ip_lookup orc x)) | _ => RBad end
+      else if String.eqb t "fmt" && String.eqb m "Errorf" then
+        match reval e a with RS x => RErrS x | _ => RBad end
+      else if String.eqb t "json" && String.eqb m "Valid" then
+        match reval e a with RS x => RB (json_ok orc x) | _ => RBad end
+      else if String.eqb t "internal" && String.eqb m "UnsafeStr2Bytes" then      (* the same bytes *)
+        match reval e a with RS x => RS x | _ => RBad end
+      else RBad
+    | ECall (ESel (EId t) m) [a; b] =>
+      if String.eqb t "strings" then
         match reval e a, reval e b with
-        | RS x, RS y => RB (negb (str_eqb x y))
-        | RErr x, RErr None => RB (match x with Some _ => true | None => false end)
+        | RS x, RS y =>
+          if String.eqb m "Trim" then RS (trim y x)
+          else if String.eqb m "HasPrefix" then RB (has_prefix x y)
+          else if String.eqb m "HasSuffix" then RB (has_suffix x y)
+          else RBad
         | _, _ => RBad
         end
       else RBad
-    | ECall (ESel (EId t) m) [] =>
-      if String.eqb m "Interface" then match e t with RVal v => RVal v | _ => RBad end else RBad
     | ECall (EId f) args =>
       let vs := (fix evs (l : list expr) : list rv := match l with [] => [] | a :: r => reval e a :: evs r end) args in
       if String.eqb f "GetJoinValidErrStr" then
@@ -59,6 +155,19 @@ Section Sem.
       else if String.eqb f "GetJoinFieldErr" then
         match vs with
         | [RS obj; RS field; RErr (Some t)] => RS (field_err obj field t)
+        | _ => RBad
+        end
+      else if String.eqb f "CheckFieldIsStr" then
+        match vs with
+        | [RS obj; RS field; RVal v] => check_str_err obj field v
+        | _ => RBad
+        end
+      else if String.eqb f "len" then match vs with [RS x] => RZ (Z.of_nat (List.length x)) | _ => RBad end
+      else if String.eqb f "StrEscape" then match vs with [RS x] => RS (str_escape x) | _ => RBad end
+      else if String.eqb f "ReflectKindIsNum" then match vs with [RKind k] => RB (kind_name_is_int k) | _ => RBad end
+      else if String.eqb f "GetTimeFmt" then
+        match vs with
+        | RZ mask :: splits => match strs splits with Some l => RS (get_time_fmt mask l) | None => RBad end
         | _ => RBad
         end
       else if String.eqb f "ToStr" then
@@ -95,6 +204,14 @@ Section Sem.
         let '(lt, gt, vs) := valid_input_size mn mx v he in Some [RB lt; RB gt; RS vs; RS (unit_of v)]
       | _ => None
       end
+    else if String.eqb f "dir" then        (* dir(path): os.Stat through the oracle table *)
+      match args with
+      | [RS path] => match stat_lookup orc path with
+                     | Some (is_dir, _) => Some [RB is_dir; RErr None]
+                     | None => Some [RB false; RErrS (stat_text path)]
+                     end
+      | _ => None
+      end
     else if String.eqb f "eq" then
       match args with
       | [RS vn; RVal v] => Some [RS (pk_val vn); RS (unit_of v); RS (pk_msg vn); RB (eq_holds (fst (atoi (pk_val vn))) v)]
@@ -118,6 +235,17 @@ Section Sem.
       | x :: r => match rexec x e with RNext e1 => run r e1 | other => other end
       end in
     match s with
+    | SAssign _ [EId x] [rhs] => match reval e rhs with RBad => RStuck | v => RNext (rset x v e) end
+    | SAssign true lhs [ECall (ESel (EId pkg) f) [a; b]] =>       (* _, err := time.Parse(layout, s) *)
+      if String.eqb pkg "time" && String.eqb f "Parse" then
+        match reval e a, reval e b with
+        | RS layout, RS x => match bind lhs [RBad; if time_ok orc layout x then RErr None else RErrO] e with
+                             | Some e1 => RNext e1
+                             | None => RStuck
+                             end
+        | _, _ => RStuck
+        end
+      else RStuck
     | SAssign true lhs [ECall (ESel (EId pkg) f) [a]] =>          (* n, _ := strconv.Atoi(s) *)
       if String.eqb pkg "strconv" && String.eqb f "Atoi" then
         match reval e a with
@@ -134,11 +262,42 @@ Section Sem.
       | Some rs => match bind lhs rs e with Some e1 => RNext e1 | None => RStuck end
       | None => RStuck
       end
-    | SIf [] c th el =>
-      match reval e c with
-      | RB true => run th e
-      | RB false => run el e
+    | SIf init c th el =>
+      match run init e with
+      | RNext e1 =>
+        match reval e1 c with
+        | RB true => run th e1
+        | RB false => run el e1
+        | _ => RStuck
+        end
+      | other => other
+      end
+    | SSwitch init (Some tag) cases =>        (* switch k := tv.Kind(); k { case reflect.String: ... default: ... } *)
+      match run init e with
+      | RNext e =>
+      match reval e tag with
+      | RKind k =>
+        (fix pick (cs : list (list expr * list stmt)) : rflow :=
+           match cs with
+           | [] => (fix dflt (ds : list (list expr * list stmt)) : rflow :=
+                      match ds with
+                      | [] => RNext e
+                      | ([], body) :: _ => run body e
+                      | _ :: r => dflt r
+                      end) cases
+           | (vals, body) :: r =>
+             (fix any (vs : list expr) : rflow :=
+                match vs with
+                | [] => pick r
+                | v :: vr => match reval e v with
+                             | RKind c => if String.eqb k c then run body e else any vr
+                             | _ => RStuck
+                             end
+                end) vals
+           end) cases
       | _ => RStuck
+      end
+      | other => other
       end
     | SExpr (ECall (ESel (EId b) m) [a]) =>
       if String.eqb m "WriteString" then
@@ -166,3 +325,11 @@ Section Sem.
     | RStuck => None
     end.
 End Sem.
+
+(* CheckFieldIsStr(objName, fieldName, tv) (err error): the named result starts nil *)
+Definition run_check_str (orc : oracles) (f : fn) (obj field : str) (v : val) : option rv :=
+  let e0 := rset "err" (RErr None) (rset "objName" (RS obj) (rset "fieldName" (RS field) (rset "tv" (RVal v) rempty))) in
+  match rexec_list orc (fun _ => []) (fun _ _ _ => []) (fun _ => []) (fn_body f) e0 with
+  | RNext e | RRet e => Some (e "err"%string)
+  | RStuck => None
+  end.
